@@ -120,6 +120,13 @@ func (vc *FuncVC) ruleEffects(st *State, r *CallRule, site string, args []any, r
 	}
 	sc := vc.newScope(st, vars)
 	vc.safeExec(sc, r.Effects, site+"/effect")
+	for _, c := range r.Assume {
+		g, ok := vc.safeBool(sc, c.E, site+"/assume")
+		if ok {
+			st.assume(g)
+			vc.trusted["contract assumption in "+vc.name+": "+c.Src] = true
+		}
+	}
 }
 
 // baseVars: the contract-local names of the function under verification.
@@ -372,6 +379,9 @@ func (vc *FuncVC) mentionsLocalGhost(ct *Contract, e Expr) bool {
 		if id, ok := x.(EIdent); ok && local[id.Name] {
 			found = true
 		}
+		if c, ok := x.(ECall); ok && (c.Fn == "alloc" || c.Fn == "made" || c.Fn == "visited") {
+			found = true
+		}
 	})
 	return found
 }
@@ -427,6 +437,14 @@ func (vc *FuncVC) applyHavoc(st *State, sc *Scope, ct *Contract, site string) {
 			old := st.heapGet("alive", aliveSort)
 			nw := st.heapHavoc("alive", aliveSort)
 			st.assume(fmt.Sprintf("(forall ((r Int)) (! (=> (select %s r) (select %s r)) :pattern ((select %s r))))", old, nw, old))
+			// channels created by the callee: state of pre-existing channels is unchanged
+			for _, k := range []string{"closed@chan", "chancap@chan"} {
+				co := st.heapGet(k, arraySort(SInt, SInt))
+				cn := st.heapHavoc(k, arraySort(SInt, SInt))
+				st.assume(fmt.Sprintf("(forall ((r Int)) (! (=> (select %s r) (= (select %s r) (select %s r))) :pattern ((select %s r))))", old, cn, co, cn))
+			}
+		case "chans":
+			st.heapHavoc("closed@chan", arraySort(SInt, SInt))
 		case "time":
 			n := st.fresh("now", SInt)
 			st.assume(app(">=", n, st.ghost["now"].T))
@@ -637,6 +655,9 @@ func (vc *FuncVC) callAbstract(st *State, fr *Frame, instr ssa.Instruction, ct *
 	if isUser {
 		vc.userEffect(st)
 		vc.countCallback(st)
+	}
+	for _, a := range ct.Assigns {
+		vc.havocLocation(st, sc, a, site)
 	}
 	var res []any
 	var names []string
@@ -906,13 +927,27 @@ func (vc *FuncVC) doSelect(st *State, fr *Frame, in *ssa.Select) []*State {
 	}
 	vc.chanSelectFacts(st, fr, in, idx, tup)
 	fr.env[in] = tup
+	st.ghost["lastSelIdx"] = V{idx, SInt, nil}
+	st.ghost["lastRecvOk"] = tup[1].(V)
+	for i := 2; i < len(tup); i++ {
+		st.ghost[fmt.Sprintf("lastRecv%d", i-2)] = tup[i].(V)
+	}
 	st.event("select -> %s", idx)
+	if len(st.frames) == 1 {
+		if r := vc.findRule("select", "any"); r != nil {
+			vc.ruleRequires(st, r, "select", nil)
+			vc.ruleEffects(st, r, "select", nil, nil)
+		}
+	}
 	return nil
 }
 
 // ---------------------------------------------------------------- defers
 
 func (vc *FuncVC) runDefers(st *State, fr *Frame) []*State {
+	if len(st.frames) == 1 {
+		st.ghost["inDefers"] = V{"true", SBool, nil}
+	}
 	// LIFO
 	fr.pendingDefers = nil
 	for i := len(fr.defers) - 1; i >= 0; i-- {
